@@ -54,8 +54,9 @@ def build(repo):
     bp = translate(pre, common + [
         Rule("R6", "! ty . disregard_distractors ( false ) . supports_negate ( )", "! supports_negate ( & ty )", why="abstract (C02.negate.sound)"),
         Rule("R6", "! ty . disregard_distractors ( false ) . is_boolean ( )", "! is_boolean ( & ty )", why="abstract"),
-        Rule("R1", "let ( line , col ) = pair . as_ref ( ) . unwrap ( ) . line_col ( ) ;", "", why="position text of `get` (C17 trace text): dropped"),
-        Rule("R1", "span : Box :: new ( format ! $a ) ,", "", why="position text dropped"),
+        Rule("R8", "pair . as_ref ( ) . unwrap ( ) . line_col ( )", "line_col ( opt_unwrap_ref ( & pair ) )", why="Option::unwrap with its panic precondition (is Some); Pair::line_col: the position of that token"),
+        Rule("R6", "$n . line_col ( )", "line_col ( & $n )", why="Pair::line_col: the position of that token"),
+        Rule("R9", 'span : Box :: new ( format ! ( "{}:{line}:{col}" , user_data . get_source_file_name ( ) ) ) ,', "span : Pos { line : line , col : col } ,", why="the position text `<file>:<line>:<col>`: modelled by the two numbers it is made of (file name: C03.diag.names-source-file)"),
         Rule("R6", "RuleK :: typeof_ => { $$b }", "RuleK :: typeof_ => { return typeof_arm ( expr , pair , user_data ) ; }", why="`typeof` arm (error-chain inspection): abstract"),
         Rule("R8", "_ => unreachable ! ( ) ,", "_ => { vpanic ( ) ; return Err ( VErr ) ; }", why="unreachable!: the operator token is a prefix rule (precondition)"),
     ], log, "parse_expr[map_prefix]")
@@ -73,7 +74,12 @@ pub struct VErr;
 #[derive(PartialEq, Eq, Structural, Clone, Copy)]
 pub enum RuleK {{ {', '.join(r if r != 'typeof' else 'typeof_' for r in rules_named)}, other }}
 pub enum Op {{ {', '.join(ops_named)} }}
-pub enum Expr {{ BinOp {{ lhs: Box<Expr>, op: Op, rhs: Box<Expr> }}, UnaryMinus(Box<Expr>), UnaryNot(Box<Expr>), UnaryUnwrap {{ value: Box<Expr> }}, Typeof(Box<Expr>, OtherV), NilEval {{ primary: Box<Expr>, fallback: Box<Expr> }}, Nil, Other(OtherV) }}
+pub enum Expr {{ BinOp {{ lhs: Box<Expr>, op: Op, rhs: Box<Expr> }}, UnaryMinus(Box<Expr>), UnaryNot(Box<Expr>), UnaryUnwrap {{ value: Box<Expr>, span: Pos }}, Typeof(Box<Expr>, OtherV), NilEval {{ primary: Box<Expr>, fallback: Box<Expr> }}, Nil, Other(OtherV) }}
+pub struct Pos {{ pub line: usize, pub col: usize }}
+// where a token stands in the source
+pub uninterp spec fn pos_of(n: &Node) -> (usize, usize);
+#[verifier::external_body] pub fn line_col(n: &Node) -> (r: (usize, usize)) ensures r == pos_of(n) {{ unimplemented!() }}
+#[verifier::external_body] pub fn opt_unwrap_ref(o: &Option<Node>) -> (r: &Node) requires o is Some ensures *r == o->Some_0 {{ unimplemented!() }}
 pub uninterp spec fn rule_of(n: &Node) -> RuleK;
 #[verifier::external_body] pub fn as_rule(n: &Node) -> (r: RuleK) ensures r == rule_of(n) {{ unimplemented!() }}
 // the operator an infix token denotes: the one of its own name
@@ -104,6 +110,8 @@ pub fn build_prefix(op: Node, rhs: Result<(Expr, Option<Node>), VErr>, user_data
     ensures r is Ok ==> rhs is Ok && ({{ let e = rhs->Ok_0.0; let n = r->Ok_0.0;
         // `get e` is an unwrap of exactly e, whatever e is: the nil check is never optimised away
         &&& rule_of(&op) is optional_unwrap ==> n is UnaryUnwrap && *n->UnaryUnwrap_value == e
+                // ... and the position a failing `get` reports is the position of THAT `get` (the operator token), whatever its operand is
+                && (n->UnaryUnwrap_span.line, n->UnaryUnwrap_span.col) == pos_of(&op)
         &&& rule_of(&op) is unary_minus ==> n is UnaryMinus && *n->UnaryMinus_0 == e
         &&& rule_of(&op) is not ==> n is UnaryNot && *n->UnaryNot_0 == e
         &&& rule_of(&op) is typeof_ ==> n is Typeof && *n->Typeof_0 == e }}),
@@ -114,8 +122,8 @@ pub fn build_prefix(op: Node, rhs: Result<(Expr, Option<Node>), VErr>, user_data
 fn main() {{}}
 """
     return gen, [Obl("C15.parse.infix", ["C15", "C02", "C01"], fn="parse_expr[map_infix]", desc="`a OP b` is parsed to BinOp { lhs: a, op: OP, rhs: b }: operands in source order, operator as written"),
-                 Obl("C12.parse.prefix", ["C12", "C15"], fn="parse_expr[map_prefix]", desc="a prefix operator wraps exactly its operand in the node of that operator; `get e` is always an unwrap")], log
+                 Obl("C12.parse.prefix", ["C12", "C15"], fn="parse_expr[map_prefix]", desc="a prefix operator wraps exactly its operand in the node of that operator; `get e` is always an unwrap and carries the source position of that `get`")], log
 
 
 UNITS = [VUnit("c15_parse_ops", ["C15", "C12", "C02", "C01"], "expression parser: operator nodes", build)]
-UNITS[0].assumes = ["fragments: the bodies of two closures of parse_expr; the Pratt parser calling them with the operands in source order is pest's contract", "operator type validation and `typeof` are abstract callees; position text of `get` dropped"]
+UNITS[0].assumes = ["fragments: the bodies of two closures of parse_expr; the Pratt parser calling them with the operands in source order is pest's contract", "operator type validation and `typeof` are abstract callees; the position text of `get` is modelled by its line and column"]
